@@ -29,7 +29,7 @@ def _finish(r):
 def _models(tier, seed, n_quick=120, n_thorough=1200, depth=2, width=3, **kw):
     import puan
     rng = random.Random(seed * 7919 + 13)
-    pool = leaf_pool(8)
+    pool = leaf_pool(9)
     n = n_quick if tier == "quick" else n_thorough
     out = 0
     tries = 0
